@@ -62,6 +62,10 @@ type Exec struct {
 	live        bool   // the event being applied is the last one of the history (the new transition)
 	stop        bool   // a violation was found: the state is not expanded
 	probe       func() // bounded-progress probe to run after key and enabled events are fixed
+	// the most recent restart of this history completed its start-up without a contradiction: the node must stay able
+	// to proceed in every later state too (e.g. when the certificate it adopted at start-up ends InError afterwards)
+	restartedOK              bool
+	restartWhy, restartDesc string
 	tmpl        []byte // an empty certificate DB as the real constructor creates it
 }
 
@@ -149,6 +153,10 @@ func (x *Exec) run(history []string) (string, []string) {
 		return key, nil
 	}
 	en := x.enabled()
+	if x.probe == nil && x.restartedOK && !x.initPending && x.Opt.Crashes {
+		why, desc := x.restartWhy, x.restartDesc
+		x.probe = func() { x.probeProgress(why+" earlier in this history", desc) }
+	}
 	if x.probe != nil {
 		// destructive look-ahead on the objects of this execution (they are discarded afterwards)
 		x.probe()
@@ -296,6 +304,7 @@ func (x *Exec) judgeRestart(why, desc string, contradiction bool) {
 		x.fail("restart-refuses/"+strings.SplitN(x.initStage, ":", 2)[0], "after %s nothing in the node's records contradicts the Agglayer's (%s) but the node does not start (Start panics on this error): %s.\nlocal:\n%s\nagglayer:\n%s",
 			why, desc, x.initStage, x.localDump(), x.Ag.Dump())
 	}
+	x.restartedOK, x.restartWhy, x.restartDesc = !contradiction && !x.initPending, why, desc
 	if !x.stop && !x.initPending && x.live {
 		x.probe = func() { x.probeProgress(why, desc) }
 	}
